@@ -254,13 +254,14 @@ func (l *commitLog) AppendMessageSet(ms []byte) ([]int64, error) {
 }
 
 func (l *commitLog) append(segment *segment, ms []byte, entries []*entry) ([]int64, error) {
-	if err := segment.WriteMessageSet(ms, entries); err != nil {
-		return nil, err
-	}
 	var (
 		lastLeaderEpoch = l.leaderEpochCache.LastLeaderEpoch()
 		offsets         = make([]int64, len(entries))
 	)
+	// Record new leader epochs before the messages are written. If we crash in
+	// between, the epoch checkpoint is ahead of the log, which New repairs by
+	// trimming it to the log end. The other order could leave messages of a
+	// new epoch in the log with no (or a too late) start offset for it.
 	for i, entry := range entries {
 		// Check if message is in a new leader epoch.
 		if entry.LeaderEpoch > lastLeaderEpoch {
@@ -271,6 +272,9 @@ func (l *commitLog) append(segment *segment, ms []byte, entries []*entry) ([]int
 			lastLeaderEpoch = entry.LeaderEpoch
 		}
 		offsets[i] = entry.Offset
+	}
+	if err := segment.WriteMessageSet(ms, entries); err != nil {
+		return nil, err
 	}
 	return offsets, nil
 }
